@@ -17,7 +17,7 @@ Proof.
   rewrite views_cons, H1. apply IH, H2.
 Qed.
 
-Lemma all2v_single ts g v : all2v ts [g] [v] = true -> is_hidden v = false -> den ts g v = true.            (* VD *)
+Lemma all2v_single ts nts g v : all2v ts nts [g] [v] = true -> is_hidden v = false -> den ts nts g v = true.            (* VD *)
 Proof.
   intros H Hv. apply den_intro; [apply ParserComplete5.all2v_single; [apply all2v_old in H; exact H | exact Hv]|].
   apply all2v_dom in H. cbn [forallb] in H. apply andb_true_iff in H. apply H.
@@ -34,8 +34,8 @@ Proof.
   destruct (is_hidden x); cbn [negb]; [exact IH | discriminate].
 Qed.
 
-Lemma chunk_has_stats_den ts a b sh l2 p p' fs :
-  den ts (Node tChunk a b sh [Lst l2]) (Node tChunk p p' false [Lst fs]) = true ->
+Lemma chunk_has_stats_den ts nts a b sh l2 p p' fs :
+  den ts nts (Node tChunk a b sh [Lst l2]) (Node tChunk p p' false [Lst fs]) = true ->
   existsb (fun y => negb (is_hidden y)) l2 = true -> chunk_has_stats (Node tChunk p p' false [Lst fs]) = true.
 Proof.
   intros Hd He. apply den_old in Hd. unfold chunk_has_stats, first_field, visible. cbn [strip_paren filter is_hidden negb].   (* VD *)
@@ -70,28 +70,29 @@ Proof. destruct l; [contradiction | reflexivity]. Qed.
 (* ------------------------------------------------------------------ the one-line if *)
 Section ShortIf.
 Variable ts : list token.
+Variable nts : bool.
 Local Notation SS := (sstream ts).
 Local Notation len := (zlen ts).
-Local Notation CTX := (CTX ts).
-Local Notation CTXL := (CTXL ts).
-Local Notation den := (den ts).
-Local Notation all2v := (all2v ts).
+Local Notation CTX := (CTX ts nts).
+Local Notation CTXL := (CTXL ts nts).
+Local Notation den := (den ts nts).
+Local Notation all2v := (all2v ts nts).
 Variable R : funs.
 Variable k : Z.
 Local Notation G := (G ts k).
-Hypothesis HR : comp ts G R.
+Hypothesis HR : comp ts nts G R.
 
 Ltac gd := unfold ValidDomain3.G, ValidDomain3.G' in *; lia.
 
 Lemma CTX_sub g mx mx' : CTX g mx -> (forall j, In j (leaves g) -> fence_ok mx' j = true) -> CTX g mx'.
 Proof. apply CTX_refence. Qed.
 
-Lemma L_shortif : shortif_stmt ts R k.
+Lemma L_shortif : shortif_stmt ts nts R k.
 Proof.
   intros pos ii q tif p mx n a b o c ex bk rest s' HG Hpos Hii Hq Hsq Hg HC. destruct HG as [Hp0 HGk].
   destruct (spos ts q ii tif _ Hq Hsq) as (Hqi & Hilen & _).
   (* the fragment conditions and the line scope of this node *)
-  pose proof (CTX_old _ _ _ HC) as (Hfrag & _ & HLS & _).                                                      (* VD *)
+  pose proof (CTX_old _ _ _ _ HC) as (Hfrag & _ & HLS & _).                                                      (* VD *)
   assert (Hls : LS ts (Node tStatIf a b true [Kw ii; Lst (Lst [Paren o c ex; bk] :: rest)]) = true).
   { apply HLS. cbn [short_ifs]. change ((tStatIf =? tStatIf) && true) with true. cbv iota. left. reflexivity. }
   cbn [in_frag] in Hfrag. change (tStatIf =? tStatIf) with true in Hfrag. change (tStatIf =? tChunk) with false in Hfrag.
@@ -103,9 +104,9 @@ Proof.
   apply negb_true_iff in Hnodo.
   (* contexts of the parts *)
   pose proof HC as HC'. apply CTX_node in HC'. ctx_split HC'. open_lst. open_lst.
-  match goal with HCp : ValidDomain1.CTX ts (Paren o c ex) mx |- _ => rename HCp into HCP end.
-  match goal with HCb : ValidDomain1.CTX ts (Node btag ba bb bsh [Lst (bx :: br)]) mx |- _ => rename HCb into HCB end.
-  match goal with HCr : ValidDomain1.CTXL ts rest mx |- _ => rename HCr into HCR end.
+  match goal with HCp : ValidDomain1.CTX ts _ (Paren o c ex) mx |- _ => rename HCp into HCP end.
+  match goal with HCb : ValidDomain1.CTX ts _ (Node btag ba bb bsh [Lst (bx :: br)]) mx |- _ => rename HCb into HCB end.
+  match goal with HCr : ValidDomain1.CTXL ts _ rest mx |- _ => rename HCr into HCR end.
   (* the derivation, piece by piece *)
   osplit Hg E1. osplit Hg E2. rename s into s1. rename s0 into s2.
   assert (Hbt : btag = tChunk).
@@ -168,22 +169,22 @@ Proof.
   { destruct rest as [|el [|[| |el2| | | | | |] [|? ?]]]; try discriminate Hg; try (exfalso; gmatch Hg; fail).
     - injection Hg as <-. unfold follow. rewrite Fb. exact I.
     - gmatch Hg. apply obind_some in Hg. destruct Hg as (s3 & Eel & _). pose proof (hd_kw _ _ _ _ Eel) as Hh. fhd Hh. }
-  eapply RT_bind2; [eapply (c_chunk _ _ _ HR (c + 1) (Some f)); [gd | rewrite Hs1; exact E2 | exact HCBf | exact Hfol_b]|].
+  eapply RT_bind2; [eapply (c_chunk _ _ _ _ HR (c + 1) (Some f)); [gd | rewrite Hs1; exact E2 | exact HCBf | exact Hfol_b]|].
   cbv beta. intros b1 p2 Hl_p2 (Q7 & Q8 & Q9 & fsb & ->). rewrite bind_assert by reflexivity.
   destruct rest as [|el [|[| |el2| | | | | |] [|? ?]]]; try discriminate Hg; try (exfalso; gmatch Hg; fail).
   - (* no else *)
     injection Hg as <-. assert (Hf0 : follow (anyof []) (Some f) (SS p2)) by (unfold follow; rewrite Q7, Fb; exact I).
     miss. prim. cbn [tag_of strip_paren]. change (tExpValue =? tExpValue) with true. cbv iota. prim.
     rewrite ret_eq. apply RT_ok; [lia|]. unfold QS. split; [exact Q7|]. split; [lia|]. split; [|split; reflexivity].
-    rewrite Hh1, Hh2. rewrite den_node by reflexivity. all2v_tac. rewrite all2v_cons; [exact (all2v_nil ts) | | reflexivity].
-    rewrite den_lst. rewrite all2v_cons; [exact (all2v_nil ts) | | reflexivity].
+    rewrite Hh1, Hh2. rewrite den_node by reflexivity. all2v_tac. rewrite all2v_cons; [exact (all2v_nil ts nts) | | reflexivity].
+    rewrite den_lst. rewrite all2v_cons; [exact (all2v_nil ts nts) | | reflexivity].
     rewrite den_lst. cbn [app]. rewrite all2v_cons; [| exact HdP | reflexivity].                                 (* VD *)
-    rewrite all2v_cons; [exact (all2v_nil ts) | exact Q9 | reflexivity].
+    rewrite all2v_cons; [exact (all2v_nil ts nts) | exact Q9 | reflexivity].
   - (* else *)
     gmatch Hg. apply obind_some in Hg. destruct Hg as (s3 & Eel & Hg).
     match type of Hg with g_chunk _ ?bb2 _ = _ => set (b2 := bb2) in * end.
     ctx_split HCR. open_lst.
-    match goal with HCe : ValidDomain1.CTX ts b2 mx |- _ => rename HCe into HCE end.
+    match goal with HCe : ValidDomain1.CTX ts _ b2 mx |- _ => rename HCe into HCE end.
     destruct (a_chunk _ (cons_all (S n)) _ _ _ Hg) as (pre_e & Hpre_e & Hlv_e).
     apply kw_inv in Eel. destruct Eel as (ie & te & Eq & Hse & Hke). subst el. rewrite <- Q7 in Hse.
     destruct (spos ts p2 ie te s3 ltac:(lia) Hse) as (Hle_e & Hlt_e & Hs3). rewrite <- Hs3 in Hpre_e.
@@ -196,7 +197,7 @@ Proof.
       - rewrite Hlv. apply in_or_app. right. apply in_or_app. right. cbn [flat_map leaves app]. right. rewrite !app_nil_r. exact Hj.
       - rewrite <- Hlv_e in Hj. destruct (Qe3 j Hj) as (A1 & _). lia. }
     rewrite (bind_accept_hit ts (pkw "else"%bs) _ p2 (Some f) ie te s3 eq_refl ltac:(lia) Hse Hke Hie). cbv beta iota zeta. prim.
-    eapply RT_bind2; [eapply (c_chunk _ _ _ HR (ie + 1) (Some f)); [gd | rewrite Hs3; exact Hg | exact HCEf | unfold follow; rewrite Fb; exact I]|].
+    eapply RT_bind2; [eapply (c_chunk _ _ _ _ HR (ie + 1) (Some f)); [gd | rewrite Hs3; exact Hg | exact HCEf | unfold follow; rewrite Fb; exact I]|].
     cbv beta. intros eb p3 Hl_p3 (Q10 & Q11 & Q12 & fse & ->).
     assert (Hb2 : exists ea eb' esh l2, b2 = Node tChunk ea eb' esh [Lst l2] /\ existsb (fun y => negb (is_hidden y)) l2 = true).
     { subst b2. match goal with |- exists _ _ _ _, ?bb = _ /\ _ => destruct bb as [t2 ea eb' esh efs2| | | | | | | |]; try discriminate Hrest end.
@@ -205,16 +206,16 @@ Proof.
       { cbn [g_chunk] in Hg. destruct (t2 =? tChunk) eqn:E; [apply Z.eqb_eq in E; exact E | discriminate]. }
       subst t2. eexists _, _, _, _. split; [reflexivity | exact Hrest]. }
     destruct Hb2 as (ea & eb' & esh & l2 & Eb2 & Hex).
-    rewrite Eb2 in Q12. rewrite (chunk_has_stats_den ts _ _ _ _ _ _ _ Q12 Hex). prim.
+    rewrite Eb2 in Q12. rewrite (chunk_has_stats_den ts _ _ _ _ _ _ _ _ Q12 Hex). prim.
     cbn [tag_of strip_paren]. change (tExpValue =? tExpValue) with true. cbv iota. prim.
     rewrite ret_eq. apply RT_ok; [lia|]. unfold QS. split; [exact Q10|]. split; [lia|]. split; [|split; reflexivity].
-    rewrite Hh1, Hh2. rewrite den_node by reflexivity. all2v_tac. rewrite all2v_cons; [exact (all2v_nil ts) | | reflexivity].
+    rewrite Hh1, Hh2. rewrite den_node by reflexivity. all2v_tac. rewrite all2v_cons; [exact (all2v_nil ts nts) | | reflexivity].
     rewrite den_lst. rewrite all2v_cons; [| | reflexivity].
-    + all2v_tac. rewrite all2v_cons; [exact (all2v_nil ts) | | reflexivity]. rewrite den_lst.
-      rewrite all2v_cons; [| apply den_pnone | reflexivity]. rewrite all2v_cons; [exact (all2v_nil ts) | | reflexivity].
+    + all2v_tac. rewrite all2v_cons; [exact (all2v_nil ts nts) | | reflexivity]. rewrite den_lst.
+      rewrite all2v_cons; [| apply den_pnone | reflexivity]. rewrite all2v_cons; [exact (all2v_nil ts nts) | | reflexivity].
       fold b2. rewrite Eb2. exact Q12.
     + rewrite den_lst. cbn [app]. rewrite all2v_cons; [| exact HdP | reflexivity].                               (* VD *)
-      rewrite all2v_cons; [exact (all2v_nil ts) | exact Q9 | reflexivity].
+      rewrite all2v_cons; [exact (all2v_nil ts nts) | exact Q9 | reflexivity].
 Qed.
 
 End ShortIf.
